@@ -9,11 +9,18 @@ X = "/'grp'/'x'"
 Y = "/'grp'/'y'"
 
 
+DAQMX_TYPES = ["Uint8", "Int8", "Uint16", "Int16", "Uint32", "Int32", "Uint64", "Int64", "SingleFloat", "DoubleFloat"]
+
+
 def build_file2(shape, seed=0, variant=0):
     il = bool(shape["il"])
     h = _h(seed, variant, repr(shape))
     segs = shape["segs"]
     trunc = any(s["lastx"] < s["nx"] or s["lasty"] < s["ny"] for s in segs)
+    # one file in six stores the two channels as DAQmx raw data (one raw buffer per channel, one scaler each);
+    # chunking and truncation behave like the contiguous layout [x, y]
+    if not il and (h // 11) % 6 == 0:
+        return build_file2_daqmx(shape, h)
     cands = list(SIZED) + ([] if (il or trunc) else ["String"])
     xt = cands[h % len(cands)]
     yt = cands[(h // 37) % len(cands)]
@@ -22,18 +29,18 @@ def build_file2(shape, seed=0, variant=0):
     out = []
     for j, s in enumerate(segs):
         objs, listed = [], []
-        if s["nx"] > 0:
-            objs.append({"p": X, "has": True, "n": s["nx"], "ty": xt})
-            listed.append({"p": X, "kind": "full"})
-        elif list_absent:
-            objs.append({"p": X, "has": False, "n": 0, "ty": xt})
-            listed.append({"p": X, "kind": "nodata"})
-        if s["ny"] > 0:
-            objs.append({"p": Y, "has": True, "n": s["ny"], "ty": yt})
-            listed.append({"p": Y, "kind": "full"})
-        elif list_absent:
-            objs.append({"p": Y, "has": False, "n": 0, "ty": yt})
-            listed.append({"p": Y, "kind": "nodata"})
+        is_trunc = s["lastx"] < s["nx"] or s["lasty"] < s["ny"]
+        # in complete segments the two channels are stored in either order (a new object list may reorder them)
+        order = [(X, "nx", xt), (Y, "ny", yt)]
+        if not is_trunc and (_h(h, j) // 3) % 2 == 1:
+            order.reverse()
+        for (pth, key, t) in order:
+            if s[key] > 0:
+                objs.append({"p": pth, "has": True, "n": s[key], "ty": t})
+                listed.append({"p": pth, "kind": "full"})
+            elif list_absent:
+                objs.append({"p": pth, "has": False, "n": 0, "ty": t})
+                listed.append({"p": pth, "kind": "nodata"})
         seg = {"meta": True, "newlist": True, "be": be, "il": il, "listed": listed, "objs": objs, "k": s["k"]}
         if s["lastx"] < s["nx"] or s["lasty"] < s["ny"]:
             sx, sy = enc.size_of(xt), enc.size_of(yt)
@@ -45,6 +52,41 @@ def build_file2(shape, seed=0, variant=0):
             seg["declare_full"] = True
         out.append(seg)
     return {"segs": out}, {"xtype": xt, "ytype": yt, "be": be}
+
+
+def build_file2_daqmx(shape, h):
+    xt = DAQMX_TYPES[h % len(DAQMX_TYPES)]
+    yt = DAQMX_TYPES[(h // 37) % len(DAQMX_TYPES)]
+    be = (h // 3) % 2 == 1
+    sx, sy = enc.size_of(xt), enc.size_of(yt)
+    props = [["NI_Scaling_Status", "String", "unscaled"], ["NI_Number_Of_Scales", "Uint32", (1).to_bytes(4, "little")]]
+    out = []
+    for j, s in enumerate(shape["segs"]):
+        present = [(X, "nx", "lastx", xt, sx), (Y, "ny", "lasty", yt, sy)]
+        present = [p for p in present if s[p[1]] > 0]
+        widths = [p[4] + (_h(h, j, p[0]) % 3) for p in present]           # padding 0..2 bytes per row
+        objs, listed = [], []
+        for b, (pth, key, lkey, t, sz) in enumerate(present):
+            d = {"kind": "fc", "widths": widths,
+                 "scalers": [{"id": 0, "ty": t, "buf": b, "off": widths[b] - sz if (_h(h, j) % 2) else 0}]}
+            objs.append({"p": pth, "has": True, "n": s[key], "ty": None, "daqmx": d})
+            listed.append({"p": pth, "kind": "full", "props": props})
+        seg = {"meta": True, "newlist": True, "be": be, "il": False, "listed": listed, "objs": objs, "k": s["k"]}
+        if s["lastx"] < s["nx"] or s["lasty"] < s["ny"]:
+            drop = 0
+            for b, (pth, key, lkey, t, sz) in enumerate(present):
+                drop += (s[key] - s[lkey]) * widths[b]
+            seg["drop"] = drop
+            seg["declare_full"] = True
+        out.append(seg)
+    return {"segs": out}, {"xtype": xt, "ytype": yt, "be": be, "daqmx": True}
+
+
+def channel_values(e, path):
+    """values of a channel in file order, whether stored as plain or as DAQmx raw data (single scaler, id 0)"""
+    if path in e.scaler_values:
+        return list(e.scaler_values[path].get(0, []))
+    return e.values.get(path, [])
 
 
 def _chunk_obs(chunk, ty):
@@ -59,7 +101,7 @@ def replay_history_case(case):
     shape = rec["shape"]
     fd, info = build_file2(shape, seed, case.get("variant", 0))
     e = enc.encode(fd, seed)
-    vals = {"x": e.values.get(X, [])[:rec["lenx"]], "y": e.values.get(Y, [])[:rec["leny"]]}
+    vals = {"x": channel_values(e, X)[:rec["lenx"]], "y": channel_values(e, Y)[:rec["leny"]]}
     tys = {"x": info["xtype"], "y": info["ytype"]}
     fails = []
     f = TdmsFile.open(io.BytesIO(e.data), raw_timestamps=True)
